@@ -1,15 +1,5 @@
-import QibProofs.Properties.C01
-import QibProofs.Properties.C01Tree
-import QibProofs.Properties.C02
-import QibProofs.Properties.C02Tree
-import QibProofs.Properties.C03
-import QibProofs.Properties.C03Tree
-import QibProofs.Properties.C04
-import QibProofs.Properties.C05
-import QibProofs.Properties.C07
-import QibProofs.Properties.C09
-import QibProofs.Properties.C14
-import QibProofs.Properties.C16
-import QibProofs.Properties.C16Tree
-import QibProofs.Properties.C17
-import QibProofs.Properties.C18
+/-!
+Library root of the proof files. Deliberately imports nothing: every property module `QibProofs.Properties.Cxx` (and its helper
+lemmas under `QibProofs.Lemmas`) is its own build target - `./setup.sh` and `./check Cxx` build exactly the modules listed in
+`LEAN_FILES` of `harness/props/cxx.py` - so independently developed cores never have to share one name space.
+-/
